@@ -225,7 +225,8 @@ theorem C09_circ_event_sends_nothing (s : St) (o cid : Nat) (args : List Text) (
       · obtain ⟨l, _, rfl⟩ := List.mem_map.mp h; rfl
   · split at hx
     · simp only [List.append_assoc, List.mem_append] at hx
-      rcases hx with h | h | h | h
+      rw [(mergeFires_perm _ _).mem_iff, List.mem_append] at hx
+      rcases hx with h | h | (h | h) | h
       · split at h
         · simp only [List.mem_singleton] at h; subst h; rfl
         · simp at h
@@ -241,6 +242,7 @@ theorem C09_circ_event_sends_nothing (s : St) (o cid : Nat) (args : List Text) (
         split at h
         · simp at h
         · obtain ⟨l, _, rfl⟩ := List.mem_map.mp h; rfl
+      · obtain ⟨l, _, rfl⟩ := List.mem_map.mp h; rfl
       · obtain ⟨l, _, rfl⟩ := List.mem_map.mp h; rfl
     · simp at hx
 
@@ -419,6 +421,91 @@ theorem C09_via_lost (s : St) (addr : Text) (port : Nat) :
       have := rekey_first _ _ _ q h e he
       simp [this]
 
+/-! ### a connection through a circuit that is still being built -/
+
+theorem mem_addTarget_self (ts : List ((Text × Nat) × (Nat × Nat))) (key : Text × Nat) (o d : Nat) :
+    (key, (o, d)) ∈ addTarget ts key o d := by
+  simp [addTarget]
+
+theorem addTarget_keeps (ts : List ((Text × Nat) × (Nat × Nat))) (key k : Text × Nat) (o d : Nat)
+    (h : ∃ d', (k, (o, d')) ∈ ts) : ∃ d', (k, (o, d')) ∈ addTarget ts key o d := by
+  obtain ⟨d', hd'⟩ := h
+  by_cases e : k = key
+  · subst e; exact ⟨d, mem_addTarget_self ts k o d⟩
+  · exact ⟨d', by simp [addTarget, hd', e]⟩
+
+/-- an entry under another address is neither added nor removed -/
+theorem addTarget_other (ts : List ((Text × Nat) × (Nat × Nat))) (key : Text × Nat) (o d : Nat) (e : (Text × Nat) × (Nat × Nat))
+    (hk : e.1 ≠ key) : e ∈ addTarget ts key o d ↔ e ∈ ts := by
+  simp only [addTarget, List.mem_append, List.mem_filter, List.mem_singleton]
+  constructor
+  · rintro (⟨h, _⟩ | h)
+    · exact h
+    · subst h; exact absurd rfl hk
+  · intro h; exact Or.inl ⟨h, by simpa using hk⟩
+
+theorem foldl_addTarget_keeps (l : List (Nat × (Nat × (Text × Nat)))) (o : Nat) (k : Text × Nat) :
+    ∀ ts : List ((Text × Nat) × (Nat × Nat)), (∃ d', (k, (o, d')) ∈ ts) →
+      ∃ d', (k, (o, d')) ∈ l.foldl (fun ts w => addTarget ts w.2.2 o w.2.1) ts := by
+  induction l with
+  | nil => intro ts h; exact h
+  | cons w l ih => intro ts h; exact ih _ (addTarget_keeps ts w.2.2 k o w.2.1 h)
+
+theorem foldl_addTarget_all (l : List (Nat × (Nat × (Text × Nat)))) (o : Nat) :
+    ∀ ts : List ((Text × Nat) × (Nat × Nat)), ∀ w ∈ l,
+      ∃ d', (w.2.2, (o, d')) ∈ l.foldl (fun ts w => addTarget ts w.2.2 o w.2.1) ts := by
+  induction l with
+  | nil => intro ts w hw; simp at hw
+  | cons a l ih =>
+    intro ts w hw
+    rcases List.mem_cons.mp hw with rfl | hw
+    · exact foldl_addTarget_keeps l o w.2.2 _ ⟨w.2.1, mem_addTarget_self ts w.2.2 o w.2.1⟩
+    · exact ih _ w hw
+
+theorem foldl_addTarget_other (l : List (Nat × (Nat × (Text × Nat)))) (o : Nat) (e : (Text × Nat) × (Nat × Nat))
+    (hk : ∀ w ∈ l, e.1 ≠ w.2.2) :
+    ∀ ts : List ((Text × Nat) × (Nat × Nat)), e ∈ l.foldl (fun ts w => addTarget ts w.2.2 o w.2.1) ts ↔ e ∈ ts := by
+  induction l with
+  | nil => intro ts; exact Iff.rfl
+  | cons a l ih =>
+    intro ts
+    rw [List.foldl_cons, ih (fun w hw => hk w (List.mem_cons_of_mem _ hw))]
+    exact addTarget_other ts a.2.2 o a.2.1 e (hk a List.mem_cons_self)
+
+/-- **`connect()` through a circuit Tor is still building waits for it.** The call hands out its Deferred and nothing else
+happens: no registration yet, nothing sent, nothing completed. -/
+theorem C09_via_waits (s : St) (o : Nat) (addr : Text) (port : Nat) (ha : s.attacher = some 0)
+    (hs : (getC s o).state ≠ str "BUILT") (hf : (getC s o).built.fired = none) :
+    step s (.via o addr port) =
+      ({ s with nextD := s.nextD + 1, viaWait := s.viaWait ++ [(o, (s.nextD, (addr, port)))] }, [.deferred s.nextD]) := by
+  simp [TxV.TorState.step, ha, hs, hf]
+
+/-- **When the circuit is BUILT, every connection that waited for it is registered for exactly that circuit** (so that its
+stream, recognised by its local address, is attached there — `C09_via_circuit`), the connections waiting for other circuits
+keep waiting, and the registrations under every other local address are untouched. -/
+theorem C09_waiting_registered (s : St) (o : Nat) :
+    (∀ w ∈ s.viaWait, w.1 = o → ∃ d, (w.2.2, (o, d)) ∈ (registerWaiting s o).targets) ∧
+    (registerWaiting s o).viaWait = s.viaWait.filter (·.1 ≠ o) ∧
+    (∀ e, (∀ w ∈ s.viaWait, w.1 = o → e.1 ≠ w.2.2) → (e ∈ (registerWaiting s o).targets ↔ e ∈ s.targets)) := by
+  refine ⟨fun w hw ho => ?_, rfl, fun e he => ?_⟩
+  · exact foldl_addTarget_all _ o s.targets w (List.mem_filter.mpr ⟨hw, by simpa using ho⟩)
+  · refine foldl_addTarget_other _ o e (fun w hw => ?_) s.targets
+    have := List.mem_filter.mp hw
+    exact he w this.1 (by simpa using this.2)
+
+/-- a single waiting connection: its address names the circuit with the very Deferred `connect()` returned -/
+theorem C09_waiting_registered_one (s : St) (o : Nat) (w : Nat × (Nat × (Text × Nat)))
+    (h : s.viaWait.filter (·.1 = o) = [w]) :
+    (registerWaiting s o).targets = addTarget s.targets w.2.2 o w.2.1 := by
+  simp [registerWaiting, h]
+
+/-- the BUILT line is where that happens; nothing is sent -/
+theorem C09_built_registers (s : St) (o cid : Nat) (args : List Text) (quit : List Nat) (hb : args.getD 1 [] = str "BUILT") :
+    ∃ s2, (circFinish s o cid args quit).1 = registerWaiting s2 o ∧ s2.viaWait = s.viaWait ∧ s2.targets = s.targets := by
+  unfold circFinish
+  simp only [hb, if_true]
+  exact ⟨_, rfl, rfl, rfl⟩
+
 /-! ## PriorityAttacher -/
 
 open TxV.Attacher in
@@ -487,5 +574,21 @@ theorem C09_priority_first (answers : Nat → Option Nat) (l : List Nat) :
 /-! ## the theorems say something -/
 
 example : TxV.Attacher.consult (fun a => if a = 12 ∨ a = 13 then some a else none) [10, 12, 13, 11] = ([10, 12], some 12) := by decide
+
+/-- two connections and a `when_built` wait on a circuit that never gets built: all three fail, in the order they began to wait -/
+example : TxV.Props.C08.runOuts {}
+    [.setAttacher (some 0), .ack true, .circ [str "5", str "LAUNCHED", str "PURPOSE=GENERAL"] [],
+     .via 0 (str "127.0.0.1") 40001, .whenBuilt 0, .via 0 (str "127.0.0.1") 40002,
+     .circ [str "5", str "FAILED", str "REASON=TIMEOUT"] []] =
+    [.cmd (str "SETCONF __LeaveStreamsUnattached=1"), .deferred 0, .deferred 1, .deferred 2,
+     .fire 0 false, .fire 1 false, .fire 2 false] := by decide +kernel
+
+/-- a connection started while the circuit is being built: its stream goes to that circuit once it is BUILT -/
+example : TxV.Props.C08.runOuts {}
+    [.setAttacher (some 0), .ack true, .circ [str "5", str "LAUNCHED", str "PURPOSE=GENERAL"] [],
+     .via 0 (str "127.0.0.1") 40001,
+     .circ [str "5", str "BUILT", TxV.Props.C07.R1, str "PURPOSE=GENERAL"] [],
+     .strm [str "7", str "NEW", str "0", str "example.com:80", str "SOURCE_ADDR=127.0.0.1:40001", str "PURPOSE=USER"] [] none] =
+    [.cmd (str "SETCONF __LeaveStreamsUnattached=1"), .deferred 0, .fire 0 true, .cmd (str "ATTACHSTREAM 7 5")] := by decide +kernel
 
 end TxV.Props.C09
